@@ -17,6 +17,7 @@
     flight, at most one answers 2xx.
 -/
 import Placement.Lemmas.SchedRp2
+import Placement.Lemmas.SchedAlloc
 import Placement.Lemmas.WfExample
 
 namespace Placement.Props.C05
@@ -251,6 +252,22 @@ theorem derived_generation_no_overwrite (cfg : Config) (ops : List (Op R))
   refine ⟨s1, s2, rp, hobs2, hrp, ht (ht0 (ids_of_uniq hU)).ids, ?_⟩
   exact (hw s2 a hfin ha).imp id (·.2)
 
+/-- **derived_generation_no_overwrite, allocation writes** (one transaction; holds for the main
+transaction of PUT /allocations/{c} and POST /allocations on ANY state, hence at every scheduling
+step).  Allocation writes read provider generations early, but `replace_all` retries a lost provider
+compare-and-swap with generations re-read from the committed state, and every attempt re-runs the
+capacity and unit checks inside the write transaction.  So a 2xx answer means: every positive amount
+fits its inventory row - unit constraints, and the total used by ALL consumers within capacity - in
+the state the transaction leaves, i.e. against everything committed before it, whatever the request
+had read (C01 `setAllocations_safe` at commit). -/
+theorem alloc_write_validated_at_commit (ctx : ACtx R) (hk : ctx.kind ≠ .reshape) (objs : List AllocReq) (db : DB R)
+    (hnn : ∀ a ∈ objs, 0 ≤ a.used) (hu : InvKeysNodup db) (hok : (aMain ctx objs db).2 = .done r204) :
+    ∀ a ∈ objs, 0 < a.used → ∀ rc, db.rcId a.rcName = some rc →
+      (∃ i ∈ (aMain ctx objs db).1.invs, i.rp = a.rpId ∧ i.rc = rc) ∧
+      ∀ i ∈ (aMain ctx objs db).1.invs, i.rp = a.rpId → i.rc = rc →
+        FitsRow i a.used ((aMain ctx objs db).1.usage a.rpId rc) :=
+  aMain_safe ctx hk objs db hnn hu hok
+
 /-! ## The hypotheses are satisfiable: three PUT inventories with the same generation, one PUT
 aggregates and an allocation write in flight on `Wf.exDb` (provider uuid 101: id 2, generation 3) -/
 
@@ -302,6 +319,14 @@ example : derives 101 exPoolD[0] = true ∧ derives 101 exPoolD[1] = true := by 
 reads generation 4 and succeeds -/
 example : (Prog.runSched [0, 2, 2, 0, 1, 1] exDb (exPoolD.map (prog exCfg))).2.map Prog.result? =
     [some (r409 .concurrentUpdate), some r204, some r200] := by decide
+
+/-- hypotheses of `alloc_write_validated_at_commit`: the object carries the STALE provider generation 0
+(provider 2 has generation 3); the first attempt loses the compare-and-swap, the retry with the
+re-read generation succeeds -/
+example : (aMain { cfg := exCfg, mv := 39, kind := .put }
+    [{ rpId := 2, rpGen := 0, rcName := 0, consId := 1, consUuid := 500, consGen := 1, used := 3 }] exDb).2 =
+    .done r204 := rfl
+example : InvKeysNodup exDb := by unfold InvKeysNodup; decide
 
 end examples
 
